@@ -71,7 +71,9 @@ func (k Keeper) IterateDelegationsForStakerAndAsset(ctx sdk.Context, stakerID st
 }
 
 func (k Keeper) IterateDelegationsForStaker(ctx sdk.Context, stakerID string, opFunc DelegationOpFunc) error {
-	return k.IterateDelegations(ctx, []byte(stakerID), opFunc)
+	// the delimiter must be part of the prefix: staker IDs end in the hex client chain ID, and
+	// one ID can be a string prefix of another (e.g. `0x..._0x65` and `0x..._0x650`).
+	return k.IterateDelegations(ctx, assetstype.GetJoinedStoreKeyForPrefix(stakerID), opFunc)
 }
 
 // TotalDelegatedAmountForStakerAsset query the total delegation amount of the specified staker and asset.
